@@ -351,8 +351,9 @@ fn main() {
             sample = Some(serde_json::json!({"seed": case.seed, "ops": case.ops.iter().take(25).map(|o| format!("t{} {:?}", o.t, o.op)).collect::<Vec<_>>()}));
         }
         if !problems.is_empty() && violations.len() < 3 {
-            let path = format!("/verif/replays/C16-disabled-{}.json", case.seed);
-            std::fs::create_dir_all("/verif/replays").ok();
+            let vd = std::env::var("VERIF_DIR").unwrap_or_else(|_| "/verif".into());
+            let path = format!("{}/replays/C16-disabled-{}.json", vd, case.seed);
+            std::fs::create_dir_all(format!("{}/replays", vd)).ok();
             std::fs::write(&path, serde_json::to_string_pretty(&serde_json::json!({"build": "fastrace without `enable`", "problems": problems, "case": case})).unwrap()).ok();
             violations.push(serde_json::json!({"seed": case.seed, "problems": problems, "replay": path}));
         }
